@@ -400,6 +400,32 @@ def rules(ck, P):
             scope_ok = ir.contains(wb["body"], lambda y: y.get("k") == "let" and y["pat"].get("k") == "bind" and y["pat"]["name"] == "offset0")
             ck.check(scope_ok, "R-DEDUP", "scope", "the map is created per block, in the function that takes the block's base offset (ranges are block-relative)",
                      "the map outlives a block although its ranges are block-relative", ir.loc(maps[0]))
+    # ---------------- R-INDEX-FRESH: a block's tile index starts with every slot empty
+    if wb is not None:
+        ser = [n for n in ir.walk_nodes(wb["body"]) if n.get("k") == "mcall" and n.get("name") in ("as_brotli_blob", "as_blob") and "TileIndex" in (n.get("q") or "")]
+        okf = False
+        why = "no TileIndex serialisation in write_block"
+        if len(ser) == 1:
+            ih = ir.local_hid(ser[0]["recv"])
+            lets_wb = comp.lets_of(wb)
+            init = lets_wb.get(ih)
+            if init is None or ir.strip(init).get("k") == "path":
+                why = "the serialised tile index is not a local created in write_block (it outlives the block, so slots without a tile keep the previous block's ranges)"
+            else:
+                c = ir.strip(init)
+                isnew = c.get("k") == "call" and (c.get("q") or "").endswith("TileIndex::new_empty")
+                cnt = isnew and comp.deep_place(c["a"][0], lets_wb).endswith("get_global_bbox().count_tiles()")
+                sets = [n for n in ir.walk_nodes(wb["body"]) if n.get("k") == "mcall" and ir.local_hid(n["recv"]) == ih and n["recv"].get("ta", "").startswith("&mut")]
+                only_set = all(n["name"] == "set" for n in sets)
+                okf = bool(isnew and cnt and only_set)
+                why = "created by %s, mutated by %s" % (c.get("q"), sorted({n["name"] for n in sets}))
+        ck.check(okf, "R-INDEX-FRESH", "versatiles|tile-index", "each block's tile index is created in write_block by TileIndex::new_empty(count_tiles of the block) and only filled by set()",
+                 "the tile index written for a block does not start empty for that block: %s" % why, ir.loc(wb))
+        ne = fn(P, "tile_index::TileIndex::new_empty")
+        if ck.anchor("R-INDEX-FRESH", "TileIndex::new_empty", [ne] if ne else [], 1):
+            rep = [n for n in ir.walk_nodes(ne["body"]) if n.get("k") in ("call", "mcall") and (n.get("q") or "").endswith(("vec::from_elem", "Vec::resize"))]
+            zero = [n for n in ir.walk_nodes(ne["body"]) if n.get("k") == "call" and (n.get("q") or "").endswith(("ByteRange::new", "ByteRange::empty")) and all(ir.const_eval(a, {}) == 0 for a in n.get("a", ()))]
+            ck.check(len(rep) == 1 and len(zero) == 1, "R-INDEX-FRESH", "versatiles|new_empty", "new_empty(count) is `count` zero-length ranges (length 0 = no tile)", "new_empty does not fill the index with zero-length ranges", ir.loc(ne))
     # ---------------- R-PM-SORT
     ad = fn(P, "entries_v3::EntriesV3::as_directory")
     if ck.anchor("R-PM-SORT", "as_directory", [ad] if ad else [], 1):
